@@ -91,6 +91,38 @@ theorem dedupByAux_first (l : List α) : ∀ (seen : List (Nat × String)) (pre 
 
 end Dedup
 
+/-- if `f`-images are pairwise distinct and `g a = g b → f a = f b` on the list, `g`-images are too -/
+theorem nodup_map_of_nodup_map {α β γ : Type} (f : α → β) (g : α → γ) :
+    ∀ (l : List α), (l.map f).Nodup → (∀ a ∈ l, ∀ b ∈ l, g a = g b → f a = f b) → (l.map g).Nodup
+  | [], _, _ => by simp
+  | x :: xs, hn, hfg => by
+    rw [List.map_cons, List.nodup_cons] at hn ⊢
+    refine ⟨?_, nodup_map_of_nodup_map f g xs hn.2
+      (fun a ha b hb => hfg a (List.mem_cons_of_mem _ ha) b (List.mem_cons_of_mem _ hb))⟩
+    intro hm
+    obtain ⟨y, hy, hgy⟩ := List.mem_map.1 hm
+    exact hn.1 (List.mem_map.2 ⟨y, hy, hfg y (List.mem_cons_of_mem _ hy) x (List.mem_cons_self ..) hgy⟩)
+
+-- ---------------------------------------------------------------------------------------------
+-- the changing registry's loop body and `application.apply`'s touch, against the cores the
+-- translator re-extracts
+
+theorem selChanging_bool (e rn re hi ci cm hd m : Bool) :
+    (!e && (((rn || re) && !(hi && !ci) && !(hi && cm && !hd) && !(rn && !hi && cm)) && m)) =
+      selChangingCore { excluded := e, reasonNone := rn, reasonEq := re, hInitial := hi, cInitial := ci,
+                        cDeleted := cm, hDeleted := hd, matched := m } := by
+  cases e <;> cases rn <;> cases re <;> cases hi <;> cases ci <;> cases cm <;> cases hd <;> cases m <;> rfl
+
+theorem selChanging_eq_core {V : Type} [PyVal V] (c : Cause V) (ex : List String) (h : Handler V) :
+    selChanging c ex h = selChangingCore (chgAtoms c ex h) :=
+  selChanging_bool _ _ _ _ _ _ _ _
+
+/-- with an uninterrupted sleep, `apply` touches iff there is a delay and no object-changing patch -/
+theorem applyTouch_eq_touchCore (delay0 nonempty changed : Bool) (h : delay0 = true → nonempty = true) :
+    applyTouchCore { delayTruthy := delay0, delayNotNone := nonempty, changed := changed, interrupted := false } =
+      touchCore { delay := nonempty, patched := changed } := by
+  cases delay0 <;> cases nonempty <;> cases changed <;> simp_all [applyTouchCore, touchCore]
+
 -- ---------------------------------------------------------------------------------------------
 -- Selector.check: the single conjuncts
 
